@@ -8,7 +8,7 @@ export CARGO_NET_OFFLINE=true
 export CARGO_TERM_COLOR=never
 mkdir -p evidence replays work
 rc=0
-for p in vcommon l1 l1y l1j5 l1s l1nf l2 l0a l0b l0bp l0dyn; do
+for p in vcommon l1 l1y l1j5 l1s l1nf l2 l0a l0b l0bp l0dyn lb; do
   echo "building $p"
   (cd engine && cargo build -q -p "$p" 2>&1 | tail -n 20) || rc=1
 done
